@@ -497,3 +497,43 @@ async fn f18_topic_full_gate_inverted() {
         topic.get_size_bytes()
     );
 }
+
+/// F5 — C04 `[C04.noreuse]`.
+/// Crash image "log append completed, index append did not": two saves of 10 messages, then the
+/// last 16-byte index record is cut off (what a crash between `save_batches` and `save_index`
+/// leaves). After the restart the partition must not hand out an offset that a message still
+/// physically present in the log already carries, and a poll must not return two different
+/// messages under one offset.
+#[tokio::test]
+async fn f5_crash_between_log_and_index_append_reuses_offsets() {
+    let dir = TempDir::new().unwrap();
+    let config = config(&dir, 10, 1_000_000_000);
+    let mut p = new_partition(config.clone(), true).await;
+    p.persist().await.unwrap();
+    send(&mut p, 0, 10).await; // stored batch 0..9, indexed
+    send(&mut p, 10, 10).await; // stored batch 10..19, indexed
+    assert_eq!(p.current_offset, 19);
+    let index_path = p.get_segments()[0].index_path.clone();
+    drop(p);
+    let len = std::fs::metadata(&index_path).unwrap().len();
+    assert_eq!(len, 32, "two index records expected");
+    let f = std::fs::OpenOptions::new().write(true).open(&index_path).unwrap();
+    f.set_len(len - 16).unwrap(); // the crash: second batch is in the log, its index record is not
+    drop(f);
+
+    let mut p = reload_partition(config).await;
+    // messages 10..19 are physically in the log; whatever recovery decides, offsets 10..19 must not be
+    // given to different messages while the old ones are still served
+    send(&mut p, 100, 5).await;
+    let first_new = p.current_offset - 4;
+    p.flush_unsaved_buffer(false).await.unwrap(); // the new batch goes to disk behind the orphaned one
+    let polled = p.get_messages_by_offset(0, 100).await.unwrap();
+    let offs = offsets(&polled);
+    let mut dedup = offs.clone();
+    dedup.dedup();
+    assert_eq!(offs, dedup, "F5: a poll returned the same offset twice: {offs:?}");
+    assert!(
+        first_new >= 20 || !offs.contains(&10) || polled.iter().filter(|m| m.offset >= 10 && m.offset < 20).all(|m| m.id >= 101),
+        "F5: offsets {first_new}.. were assigned again although the log still holds the old messages 10..19 (polled offsets {offs:?})"
+    );
+}
